@@ -422,6 +422,7 @@ Apply(st, e) ==
       \* ---- `yield from server.sync()`: RT: a bundle (time None) with '/sync id', then wait for '/synced id';
       \*      NRT: nothing at all (commands complete in logical time).  The id is an observation.
       [] e.op = "sync" -> R(st, IF st.cfg.rt = 1 THEN <<Ev("bundle", NOTIME, <<Msg("/sync", <<I(new)>>)>>)>> ELSE <<>>, "")
+      [] e.op = "bigbind" -> R(st, <<>>, "")        \* judged as a whole by BigWhy; leaves the client state alone
       [] e.op = "bind_enter" -> R([st EXCEPT !.inbind = TRUE, !.pending = <<>>], <<>>, "")
       [] e.op = "bind_exit" -> R([st EXCEPT !.inbind = FALSE, !.pending = <<>>], <<>>, "")      \* handled in Step
       [] OTHER -> R(st, <<Ev("unknown-op", 0, <<>>)>>, "")
@@ -475,11 +476,41 @@ OnlyKnownIds(st2, st, ms) ==       \* st2: state after the call (ids created by 
 CreationCmds == {"/s_new", "/g_new", "/p_new"}
 \* a bundle without elements carries no command: it is not counted as output
 Norm(em) == SelectSeq(em, LAMBDA w : w.m # <<>>)
+(* ---- large blocks.  One event stands for a whole bind() block of N commands on one node (compact form: the commands
+   are named 1..N by an argument value, the recorded wire is big = <<[t, sync, ids], ...>>, one entry per bundle with the
+   names found in it).  n = <<N, k, r>>: `yield from server.sync()` after command k (0 = no sync), exception raised
+   before command r (0 = none).  Size-agnostic law: however the library splits an oversize block (Clump.tla), the
+   command bundles carry server latency, none is empty, and concatenated they are the commands that had to reach the
+   wire - every one exactly once, in issue order - split at the sync (RT) exactly as for small blocks.            *)
+RECURSIVE CatIds(_)
+CatIds(ws) == IF ws = <<>> THEN <<>> ELSE ws[1].ids \o CatIds(Tail(ws))
+Upto(a, b) == [i \in 1 .. (IF b >= a THEN b - a + 1 ELSE 0) |-> a + i - 1]
+BigWhy(st, e) ==
+    LET N == e.n[1]
+        k == IF st.cfg.rt = 1 THEN e.n[2] ELSE 0          \* NRT: sync does nothing
+        r == e.n[3]
+        w == SelectSeq(e.big, LAMBDA b : b.sync = 1 \/ b.ids # <<>>)        \* an empty bundle is not output
+        syncs == {j \in 1 .. Len(w) : w[j].sync = 1}
+        flushed == k > 0 /\ (r = 0 \/ r > k)                               \* the sync was reached
+        want1 == IF flushed THEN Upto(1, k) ELSE IF r = 0 THEN Upto(1, N) ELSE <<>>
+        want2 == IF flushed /\ r = 0 THEN Upto(k + 1, N) ELSE <<>>
+        cut == IF syncs = {} THEN Len(w) + 1 ELSE CHOOSE j \in syncs : TRUE
+        seg1 == SubSeq(w, 1, cut - 1)
+        seg2 == SubSeq(w, cut + 1, Len(w)) IN
+    IF e.exc # "" THEN "raised"
+    ELSE IF Cardinality(syncs) # (IF flushed THEN 1 ELSE 0) THEN "BindSplitAtSync"
+    ELSE IF \E j \in 1 .. Len(w) : w[j].sync = 0 /\ w[j].t # st.cfg.latency THEN "BigBlockLatency"
+    ELSE IF \E j \in syncs : w[j].ids # <<>> \/ w[j].t # NOTIME THEN "BindSplitAtSync"
+    ELSE IF r # 0 /\ Len(CatIds(seg1) \o CatIds(seg2)) > Len(want1) THEN "BindNothingOnRaise"
+    ELSE IF CatIds(seg1) # want1 \/ CatIds(seg2) # want2 THEN "BigBlockExactlyOnceInOrder"
+    ELSE "ok"
+
 StripMsg(m) == [a |-> m.a, g |-> m.g, b |-> [k \in 1 .. Len(m.b) |-> [a |-> m.b[k].a, g |-> m.b[k].g, b |-> <<>>]]]
 Strip(em) == [k \in 1 .. Len(em) |-> [k |-> em[k].k, t |-> em[k].t, m |-> [j \in 1 .. Len(em[k].m) |-> StripMsg(em[k].m[j])]]]
 \* the library refuses a freed bus object with the same exception class as a freed bus's as_map()
 ExcOk(got, want) == got = want \/ (want = "FreedBus" /\ got = "BusException")
 Why(st, e0) ==
+    IF e0.op = "bigbind" THEN BigWhy(st, e0) ELSE
     LET e == [e0 EXCEPT !.em = Strip(Norm(@))]
         x == Step(st, e)
         ms == AllMsgs(Norm(e0.em)) IN          \* with the map-symbol projection, for the id clauses
